@@ -1,6 +1,7 @@
 package main
 
 import (
+	"bytes"
 	"context"
 	"encoding/json"
 	"errors"
@@ -76,8 +77,11 @@ func canonJSON(v interface{}) string {
 	if err != nil {
 		return "unmarshalable"
 	}
+	// (numbers keep every digit: a value read back through float64 would hide a rounded integer)
 	var x interface{}
-	if json.Unmarshal(b, &x) != nil {
+	dec := json.NewDecoder(bytes.NewReader(b))
+	dec.UseNumber()
+	if dec.Decode(&x) != nil {
 		return "unparsable"
 	}
 	b, _ = json.Marshal(x)
@@ -140,6 +144,10 @@ func genC05Value(r *Rng) interface{} {
 	case 0:
 		return string(genC08Val(r, "str", "VARCHAR").tok) // arbitrary printable-ish string
 	case 1:
+		if r.Chance(25) {
+			// beyond 2^53: a value a float64 cannot carry
+			return int64(9007199254740993) + int64(r.Intn(1000))*2
+		}
 		return int64(r.Intn(2000)) - 1000
 	case 2:
 		return float64(r.Intn(100000)) / 8
@@ -310,7 +318,9 @@ func runC05(c *Ctx) {
 		if regReq != nil {
 			regAppData = regReq.ApplicationData
 			var ad map[string]interface{}
-			json.Unmarshal(regReq.ApplicationData, &ad)
+			dec := json.NewDecoder(bytes.NewReader(regReq.ApplicationData))
+			dec.UseNumber() // every digit of what was registered
+			dec.Decode(&ad)
 			if m, ok := ad["actionContext"].(map[string]interface{}); ok {
 				regCtx = m
 			}
@@ -456,6 +466,12 @@ func runC05(c *Ctx) {
 					}
 					if an2 != res {
 						ctxS += "@wrong-action:" + an2
+					}
+					// the coordinator replayed what was registered: the method must see a context JSON-equivalent to it
+					if dk == "c" && regAppData != nil && inv.ctx != nil && class == "" {
+						if want := showCtxMap(regCtx, true); ctxS != want {
+							class, detail = "action_context_not_equivalent", fmt.Sprintf("registered %s, the %s method saw %s", want, inv.kind, ctxS)
+						}
 					}
 					evs = append(evs, fmt.Sprintf("inv:%s:%s:%s:%s", inv.kind, x, b, ctxS))
 				}
